@@ -145,7 +145,7 @@ theorem afterLogs_spec (s : Hal × PW) (d : Driver) (hinv : Inv s.1) :
     a.1.activeDrivers = s.1.activeDrivers ∧ a.1.sink = s.1.sink ∧
     a.1.probes = s.1.probes ++ [d.id] ∧ a.1.inits = s.1.inits ++ [d.id] ∧
     a.1.logged = s.1.logged ++ prefixStream (halPrefix d) s.2.atStart (d.initLog.flatten ++ tailOf d) ∧
-    a.2.atStart = true := by
+    a.2.atStart = true ∧ a.1.linkedAt = s.1.linkedAt := by
   intro a
   let s0 : Hal × PW := ({ s.1 with probes := s.1.probes ++ [d.id], inits := s.1.inits ++ [d.id] }, { s.2 with pfx := halPrefix d })
   -- predicate carried through the writes
@@ -163,8 +163,8 @@ theorem afterLogs_spec (s : Hal × PW) (d : Driver) (hinv : Inv s.1) :
   have h2 : P a.1 := pwWrites_keeps _ P hP _ _ h1
   obtain ⟨l1, l2, l3⟩ := pwWrites_logged s.1.sink s0 d.initLog
   obtain ⟨m1, m2, m3⟩ := pwWrites_logged s.1.sink (pwWrites s.1.sink s0 d.initLog) (bytewise (tailOf d))
-  obtain ⟨hi, c1, c2, c3, c4, _, _, _, _, c9, c10, _⟩ := h2
-  refine ⟨hi, c1, c2, c3, c4, c9, c10, ?_, ?_⟩
+  obtain ⟨hi, c1, c2, c3, c4, _, _, _, _, c9, c10, c11⟩ := h2
+  refine ⟨hi, c1, c2, c3, c4, c9, c10, ?_, ?_, c11⟩
   · show (pwWrites s.1.sink (pwWrites s.1.sink s0 d.initLog) (bytewise (tailOf d))).1.logged = _
     rw [m1, l1, l3, l2, bytewise_flatten, prefixStream_append, List.append_assoc]
     rfl
@@ -188,7 +188,9 @@ theorem link_spec (st : Hal) (t c : Nat) (hwf : st.ring.WF) (hs : st.sink = none
   · intro h; simp at h
   · intro t' _
     refine ⟨rfl, rfl, d2, st.logged.length, rfl, Nat.le_refl _, ?_⟩
-    simp [hr, d1, hc]
+    -- (explicit rewriting: `simp` here leaves a `rfl` the kernel can only check by unfolding the drain loop)
+    show st.ttyRecv ++ st.ring.drainAll.1 = lastN cap (st.logged.take st.logged.length) ++ st.logged.drop st.logged.length
+    rw [hr, d1, hc, List.take_length, List.drop_length, List.nil_append, List.append_nil]
 
 theorem odi_other (st : Hal) (d : Driver) (hk : d.kind = .other) : st.onDriverInit d = st := by
   unfold Hal.onDriverInit; simp [hk]
@@ -296,7 +298,7 @@ theorem probeOne_spec (s : Hal × PW) (d : Driver) (hinv : Inv s.1) (hat : s.2.a
     refine ⟨⟨h1, h2, h3, h4⟩, hat, ?_⟩
     simp [pick_none]
   | true =>
-    obtain ⟨a1, a2, a3, a4, a5, a6, a7, a8, a9⟩ := afterLogs_spec s d hinv
+    obtain ⟨a1, a2, a3, a4, a5, a6, a7, a8, a9, _⟩ := afterLogs_spec s d hinv
     rw [hat] at a8
     simp only [Bool.true_eq_false, if_false, if_true, succ, hp, Bool.true_and, driverLog]
     cases he : d.initErr with
@@ -448,3 +450,131 @@ theorem runRing_refines (ops : List RingOp) (rb : Ring) (h : rb.WF) :
       exact ⟨i1, i2, by rw [← i3]⟩
 
 end Firefly.Ring
+
+/-! ### the moment of the link -/
+namespace Firefly.Hal
+open Firefly.Ring Firefly.Prefix Firefly.C16.Spec
+
+theorem link_sink (st : Hal) (t : Nat) (h : st.activeTTY = some t) : st.link.sink = some t := by
+  unfold Hal.link; rw [h]; rfl
+
+theorem link_linkedAt (st : Hal) (t : Nat) (h : st.activeTTY = some t) : st.link.linkedAt = some st.logged.length := by
+  unfold Hal.link; rw [h]; rfl
+
+/-- `onDriverInit` records the link moment exactly when it links -/
+theorem onDriverInit_linkedAt (st : Hal) (d : Driver) (hinv : Inv st) :
+    (st.onDriverInit d).linkedAt =
+      if st.sink = none ∧ (st.onDriverInit d).sink ≠ none then some st.logged.length else st.linkedAt := by
+  obtain ⟨_, hsink, _, _⟩ := hinv
+  rcases hk : d.kind with _ | _ | _
+  · rcases Option.eq_none_or_eq_some st.activeConsole with hc | ⟨c, hc⟩
+    · have hs : st.sink = none := by rw [hsink, hc]; rfl
+      rcases Option.eq_none_or_eq_some st.activeTTY with ht | ⟨t, ht⟩
+      · rw [odi_console_first st d hk hc ht]; simp [hs]
+      · rw [odi_console_link st d t hk hc ht, link_sink ({ st with activeConsole := some d.id }) t ht,
+          link_linkedAt ({ st with activeConsole := some d.id }) t ht]; simp [hs]
+    · rw [odi_console_skip st d c hk hc]; simp
+  · rcases Option.eq_none_or_eq_some st.activeTTY with ht | ⟨t, ht⟩
+    · have hs : st.sink = none := by rw [hsink, ht]; simp
+      rcases Option.eq_none_or_eq_some st.activeConsole with hc | ⟨c, hc⟩
+      · rw [odi_tty_first st d hk ht hc]; simp [hs]
+      · rw [odi_tty_link st d c hk ht hc, link_sink ({ st with activeTTY := some d.id }) d.id rfl,
+          link_linkedAt ({ st with activeTTY := some d.id }) d.id rfl]; simp [hs]
+    · rw [odi_tty_skip st d t hk ht]; simp
+  · rw [odi_other st d hk]; simp
+
+theorem probeOne_linkedAt (s : Hal × PW) (d : Driver) (hinv : Inv s.1) (hat : s.2.atStart = true) :
+    (probeOne s d).1.linkedAt =
+      if s.1.sink = none ∧ (probeOne s d).1.sink ≠ none then some (s.1.logged ++ driverLog d).length
+      else s.1.linkedAt := by
+  rw [probeOne_eq]
+  cases hp : d.probeOk with
+  | false => simp
+  | true =>
+    obtain ⟨a1, _, _, _, a5, _, _, a8, _, a10⟩ := afterLogs_spec s d hinv
+    rw [hat] at a8
+    simp only [Bool.true_eq_false, if_false]
+    cases he : d.initErr with
+    | some msg => simp only [a5, a10]; simp
+    | none =>
+      simp only
+      rw [onDriverInit_linkedAt _ d a1, a5, a10, a8]
+      simp only [driverLog, hp, if_true]
+
+theorem pick_isSome (cur : Option Nat) (o : Option Driver) : (pick cur o).isSome = (cur.isSome || o.isSome) := by
+  cases cur <;> cases o <;> rfl
+
+theorem inv_sink_ne_none (st : Hal) (h : Inv st) :
+    (st.sink ≠ none) ↔ (st.activeConsole.isSome && st.activeTTY.isSome) = true := by
+  rw [h.2.1]
+  cases hc : st.activeConsole <;> cases ht : st.activeTTY <;> simp
+
+/-- once linked, the recorded moment never changes -/
+theorem probeFold_linkedAt_some (ds : List Driver) (s : Hal × PW) (hinv : Inv s.1) (hat : s.2.atStart = true)
+    (hs : s.1.sink ≠ none) : (ds.foldl probeOne s).1.linkedAt = s.1.linkedAt ∧ (ds.foldl probeOne s).1.sink ≠ none := by
+  induction ds generalizing s with
+  | nil => exact ⟨rfl, hs⟩
+  | cons d t ih =>
+    obtain ⟨p1, p2, _, _, p5, p6, _, _⟩ := probeOne_spec s d hinv hat
+    have hs' : (probeOne s d).1.sink ≠ none := by
+      rw [inv_sink_ne_none _ p1, p5, p6, pick_isSome, pick_isSome]
+      have := (inv_sink_ne_none _ hinv).1 hs
+      simp only [Bool.and_eq_true] at this
+      simp [this.1, this.2]
+    obtain ⟨i1, i2⟩ := ih (probeOne s d) p1 p2 hs'
+    simp only [List.foldl_cons]
+    refine ⟨?_, i2⟩
+    rw [i1, probeOne_linkedAt s d hinv hat]
+    simp [hs]
+
+/-- the link happens right after the status line of the driver that completes the pair -/
+theorem probeFold_linkedAt (ds : List Driver) (s : Hal × PW) (hinv : Inv s.1) (hat : s.2.atStart = true)
+    (hs : s.1.sink = none) :
+    (ds.foldl probeOne s).1.linkedAt =
+      match linkMoment s.1.logged.length ds s.1.activeConsole.isSome s.1.activeTTY.isSome with
+      | some n => some n
+      | none => s.1.linkedAt := by
+  induction ds generalizing s with
+  | nil => simp [linkMoment, linkCount]
+  | cons d t ih =>
+    obtain ⟨p1, p2, _, _, p5, p6, _, p8⟩ := probeOne_spec s d hinv hat
+    have hl := probeOne_linkedAt s d hinv hat
+    have e1 : (s.1.activeConsole.isSome || (succ d && d.kind == Kind.console)) = (probeOne s d).1.activeConsole.isSome := by
+      rw [p5, pick_isSome]; congr 1; cases (succ d && d.kind == Kind.console) <;> rfl
+    have e2 : (s.1.activeTTY.isSome || (succ d && d.kind == Kind.tty)) = (probeOne s d).1.activeTTY.isSome := by
+      rw [p6, pick_isSome]; congr 1; cases (succ d && d.kind == Kind.tty) <;> rfl
+    simp only [List.foldl_cons, linkMoment, linkCount, e1, e2]
+    by_cases hb : ((probeOne s d).1.activeConsole.isSome && (probeOne s d).1.activeTTY.isSome) = true
+    · have hs' : (probeOne s d).1.sink ≠ none := (inv_sink_ne_none _ p1).2 hb
+      rw [(probeFold_linkedAt_some t _ p1 p2 hs').1, hl]
+      simp [hs, hs', hb]
+    · have hs' : (probeOne s d).1.sink = none := by
+        cases h : (probeOne s d).1.sink with
+        | none => rfl
+        | some x => exact absurd ((inv_sink_ne_none _ p1).1 (by rw [h]; simp)) hb
+      rw [ih _ p1 p2 hs', hl]
+      simp only [hb, hs', linkMoment, p8]
+      cases linkCount t (probeOne s d).1.activeConsole.isSome (probeOne s d).1.activeTTY.isSome with
+      | none => simp
+      | some j => simp; omega
+
+theorem bringUp_linkedAt (sort : List Driver → List Driver) (p : Nat) (hp : p < N) (before : List (List UInt8))
+    (regs : List Driver) (after : List (List UInt8)) :
+    (bringUp sort p before regs after).linkedAt = linkMoment before.flatten.length (sort regs) false false := by
+  obtain ⟨b1, b2, b3⟩ := logs_spec (boot p) before (boot_inv p hp)
+  obtain ⟨d1, d2, _, d4, _, _, _, _, _, _, d11⟩ := b2
+  have hs : (before.foldl Hal.log (boot p), ({} : PW)).1.sink = none := d4
+  have hf := probeFold_linkedAt (sort regs) (before.foldl Hal.log (boot p), ({} : PW)) b1 rfl hs
+  obtain ⟨f1, _⟩ := probeFold_spec (sort regs) (before.foldl Hal.log (boot p), ({} : PW)) b1 rfl
+  obtain ⟨_, a2, _⟩ := logs_spec _ after f1
+  have e : bringUp sort p before regs after =
+      after.foldl Hal.log ((sort regs).foldl probeOne (before.foldl Hal.log (boot p), ({} : PW))).1 := rfl
+  rw [e, a2.2.2.2.2.2.2.2.2.2.2, hf]
+  have : (boot p).logged = [] := rfl
+  simp only [d1, d2, d11, b3, this, List.nil_append]
+  show (match linkMoment before.flatten.length (sort regs) false false with
+    | some n => some n
+    | none => none) = _
+  cases linkMoment before.flatten.length (sort regs) false false <;> rfl
+
+end Firefly.Hal
